@@ -6,13 +6,14 @@ from . import common as C
 LIT = {"Integer": "1", "String": "\"s\"", "Float": "1.5"}
 
 
-def emit(work, stats, nmethods, maxsites):
+def emit(work, stats, nmethods, maxsites, ctxs=("plain",)):
     progs = []
 
     def feed(line):
         progs.append(json.loads(json.loads(line)))
     r = C.run_tlc(work, "MCMethods", "Methods.cfg", workers=1, timeout=3000, stream=feed, heap="16g",
-                  consts={"EMIT": "TRUE", "NMETHODS": nmethods, "MAXSITES": maxsites})
+                  consts={"EMIT": "TRUE", "NMETHODS": nmethods, "MAXSITES": maxsites,
+                          "CTXS": "{" + ",".join(json.dumps(c) for c in ctxs) + "}"})
     if not r.ok:
         raise C.HarnessError("Methods model violates its own properties: %s" % r.violation)
     stats["states"] += r.distinct
@@ -46,8 +47,25 @@ def render(p, wrap_class=None):
     if wrap_class:
         lines.append("end")
     for i, s in enumerate(p["sites"]):
-        lines.append("r%d = %s(%s)" % (i, s["callee"], LIT[s["c"]]))
-        info["site_rows"].append(len(lines))
-        lines.append("dbtp r%d" % i)
-        info["result_probe"].append(len(lines))
+        call = "%s(%s)" % (s["callee"], LIT[s["c"]])
+        ctx = s.get("ctx", "plain")
+        if ctx == "plain":
+            lines.append("r%d = %s" % (i, call))
+            info["site_rows"].append(len(lines))
+            lines.append("dbtp r%d" % i)
+            info["result_probe"].append(len(lines))
+            continue
+        if ctx == "if-cond":
+            lines += ["if %s" % call, "  r%d = 1" % i, "end"]
+            info["site_rows"].append(len(lines) - 2)
+        elif ctx == "while-cond":
+            lines += ["while %s" % call, "  r%d = 1" % i, "end"]
+            info["site_rows"].append(len(lines) - 2)
+        elif ctx == "arg":
+            lines.append("r%d = [%s]" % (i, call))
+            info["site_rows"].append(len(lines))
+        elif ctx == "block":
+            lines += ["[%s].each do |bv%d|" % (LIT[s["c"]], i), "  %s(bv%d)" % (s["callee"], i), "end"]
+            info["site_rows"].append(len(lines) - 1)
+        info["result_probe"].append(None)
     return lines, info
